@@ -164,10 +164,14 @@ type wtReadMode struct {
 	rb    int    // read buffer size argument
 	plan  []int  // short reads
 	chunk int    // max bytes per read afterwards (0 unlimited)
-	api   string // ReadMessage | Read1 | Read5
+	api   string // ReadMessage | Read1 | Read5 | Read64K
+	eofWith bool // the stream returns its last bytes together with io.EOF (as a QUIC stream does on FIN)
 }
 
 func (m wtReadMode) String() string {
+	if m.eofWith {
+		return fmt.Sprintf("rb=%d plan=%v chunk=%d api=%s last-bytes-with-EOF", m.rb, m.plan, m.chunk, m.api)
+	}
 	return fmt.Sprintf("rb=%d plan=%v chunk=%d api=%s", m.rb, m.plan, m.chunk, m.api)
 }
 
@@ -176,6 +180,7 @@ func wtReadAll(stream []byte, mode wtReadMode, limit int64) (msgs []wtMsg, err e
 	fs = newFakeStream(stream)
 	fs.plan = append([]int(nil), mode.plan...)
 	fs.chunk = mode.chunk
+	fs.eofWithData = mode.eofWith
 	sess = newFakeSession()
 	c := wt.NewConn(sess.S, fs, true, mode.rb, 0, nil, nil, nil)
 	if limit != 0 {
@@ -194,6 +199,9 @@ func wtReadAll(stream []byte, mode wtReadMode, limit int64) (msgs []wtMsg, err e
 				sz := 5
 				if mode.api == "Read1" {
 					sz = 1
+				}
+				if mode.api == "Read64K" {
+					sz = 65536
 				}
 				buf := make([]byte, sz)
 				for {
@@ -331,7 +339,8 @@ func wtPaths(wb, n int) []wtPath {
 }
 
 func readModesFor(total int, thorough bool) []wtReadMode {
-	ms := []wtReadMode{{api: "ReadMessage"}, {rb: 16, api: "ReadMessage"}, {api: "Read5"}}
+	ms := []wtReadMode{{api: "ReadMessage"}, {rb: 16, api: "ReadMessage"}, {api: "Read5"},
+		{api: "ReadMessage", eofWith: true}, {api: "Read64K", eofWith: true}, {api: "Read64K"}, {rb: 16, api: "Read5", eofWith: true}}
 	if total <= 70000 {
 		ms = append(ms, wtReadMode{chunk: 1, api: "ReadMessage"}, wtReadMode{rb: 16, chunk: 1, api: "Read1"})
 	}
@@ -749,7 +758,7 @@ func init() {
 			id := "decode " + desc
 			distinct++
 			c.Case(id, func() []string {
-				modes := []wtReadMode{{api: "ReadMessage"}, {rb: 16, chunk: 1, api: "Read5"}}
+				modes := []wtReadMode{{api: "ReadMessage"}, {rb: 16, chunk: 1, api: "Read5"}, {api: "ReadMessage", eofWith: true}, {api: "Read64K", eofWith: true}}
 				if len(stream) <= 600 {
 					for o := 1; o < len(stream) && o < 40; o++ {
 						modes = append(modes, wtReadMode{plan: []int{o}, api: "ReadMessage"})
